@@ -38,6 +38,8 @@ pub struct CtlCase {
     pub fresh: bool, // afterwards, a fresh connection must be served
     /// clients that connect and reset before being accepted, ahead of the real client
     pub vanish_first: usize,
+    /// what each vanishing client sends before it resets (empty: nothing)
+    pub vanish_data: Vec<u8>,
 }
 
 fn hdrs_enc(hs: &[(Vec<u8>, Vec<u8>)]) -> String {
@@ -228,13 +230,14 @@ pub fn execute(c: &CtlCase, cfg: &Config) -> Outcome {
     let fresh = c.fresh;
     let write_err = c.write_err;
     let vanish_first = c.vanish_first;
+    let vanish_data = c.vanish_data.clone();
     let (out, rep) = sched::run(cfg, move || {
         let server = Arc::new(Server::http("127.0.0.1:0").expect("server"));
         let addr = server.server_addr().to_ip().unwrap();
         let log: Log = Arc::new(StdMutex::new(vec![]));
         let received = Arc::new(std::sync::atomic::AtomicUsize::new(0));
         for _ in 0..vanish_first {
-            let _ = verif_rt::net::TcpStream::connect_and_vanish(addr);
+            let _ = verif_rt::net::TcpStream::connect_send_and_vanish(addr, &vanish_data);
         }
         if vanish_first > 0 {
             sched::settle(1_000_000_000);
@@ -434,7 +437,7 @@ pub fn execute(c: &CtlCase, cfg: &Config) -> Outcome {
     let mut out = out;
     out.aborted = rep.aborted;
     // a thread that ended by panicking inside the library (not the scripted handler panic, which is caught)
-    out.panicked = rep.events.iter().any(|e| e.what.starts_with("panic"));
+    out.panicked = rep.panics > 0;
     out
 }
 
